@@ -67,7 +67,7 @@ def bounds(tier):
         )
     lad9 = [0, 1, 2, 5, 10, 15, 20, 25, 30, 35, 40]
     return dict(
-        ion_charges="-4..4 without 0", ladders={"1": list(range(0, 41)), "2": lad9, "3": lad9, "4": LAD_Q},
+        ion_charges="-4..4 without 0", ladders={"1": list(range(0, 41)), "2": lad9, "3": lad9, "4": [0, 1, 20, 40]},
         max_ions=4, T=[250.0 + 2.5 * i for i in range(161)], eps=[5.0 + 5 * i for i in range(20)] + [78.4],
         rho=[500.0 + 100 * i for i in range(11)] + [997.0], stoich_range=2, stoich_len=3,
     )
